@@ -22,6 +22,7 @@ func main() {
 	fs.StringVar(&a.Out, "out", "", "trace file (ndjson)")
 	fs.Int64Var(&a.Seed, "seed", 1, "seed for payload generators / random drivers")
 	fs.StringVar(&a.Mode, "mode", "", "component specific mode")
+	fs.IntVar(&a.SidBase, "sidbase", 0, "offset added to scenario numbers")
 	_ = fs.Parse(os.Args[2:])
 	a.Rest = fs.Args()
 	run, ok := tr.Components[comp]
